@@ -26,7 +26,8 @@ def eval_small(args):
     out = {}
     for system, pm in configs:
         out[cfg_name((system, pm))] = core.impl_answers(names, answers.keyed(case["base"]), answers.keyed(case["queries"]),
-                                                        system, weakly=case["weakly"], pmaxsat=pm, sig=case.get("sig"))
+                                                        system, weakly=case["weakly"], pmaxsat=pm, sig=case.get("sig"),
+                                                        **(case.get("inference_kwargs") or {}))
     return out
 
 
